@@ -86,4 +86,11 @@ var plans = map[string]*plan{
 		Real:   realB, Stub: []string{"no server involved; stored bytes are damaged by the harness"},
 		Assume: []string{"ground truth about referenced pointers from git rev-list / ls-files / cat-file and the harness's own pointer reader", "lfs.fetchexclude is not exercised", "explicit size-0 pointers are not generated (git-lfs never stores the empty object)"},
 	},
+	"C05": {
+		ID: "C05", Engine: "B", Level: "exploration",
+		Stages: []stage{{"C05.plain", 100, 2500}, {"C05", 300, 10000}},
+		Rule:   "each scenario = one tape: a history with commit dates spread over 40 simulated days (writes, duplicates, deletes, renames, branches, merges, tags, orphan branches), partial pushes (branch / --all / --force) to a bare remote, then optional extra worktree (with a staged file), 0-2 stashes (plain, -u, --keep-index), staged-but-uncommitted file, detached HEAD; lfs.fetchrecentrefsdays / fetchrecentcommitsdays / pruneoffsetdays drawn from {0,1,3,7}; flags --force --recent --dry-run --verify-remote --verify-unreachable --when-unverified=continue; for --verify-remote a tape-chosen subset of objects is removed from the server; stage C05 additionally draws one of 7 spellings of the tracking attributes (incl. binary, -diff, text, eol=, custom diff driver) and one of 10 ambient user configurations that change git's diff/log output (diff.noprefix, mnemonicprefix, src/dstPrefix, renames, context, quotepath, showsignature, decorate, binary diff driver). Every scenario is non-trivial; distinct = distinct choice trace + outcomes.",
+		Real:   realB, Stub: stubB,
+		Assume: []string{"the must-retain set under-approximates the statement and is computed with git plumbing only (ls-tree, ls-files, raw diff-tree, rev-list), which is immune to the ambient diff configuration", "retention windows are only demanded at least 3 hours inside the boundary", "lfs.fetchexclude is not exercised", "simulated time is carried by commit dates relative to the run's start (40 days per scenario)"},
+	},
 }
